@@ -211,7 +211,9 @@ def register_io(reg):
           "stored-values-predate-the-call": 'forall("k:key", "old(implies(has(self._data, k), allocated(get(self._data, k))))")',
           "keys": 'forall("k:key", "iff(has(tree, k), has(fields, k) and pos(fields, k) < I and (has(self._data, k) or (truthy(virtual) and typeis(get(fields, k), \'ref:VirtualFieldMixin\'))) and not typeis(get(fields, k), \'ref:InstanceMethodFieldMixin\'))")', "sub": 'forall("k:key", "implies(has(tree, k) and typeis(fval(get(fields, k), self, k), \'ref:Config\'), tree_rel(get(tree, k), fval(get(fields, k), self, k), virtual, sensitive_mask))")', "masked": 'forall("k:key", "implies(has(tree, k) and not typeis(fval(get(fields, k), self, k), \'ref:Config\') and typeis(get(fields, k), \'ref:Field\') and get(fields, k).sensitive and sensitive_mask is not None and implies(typeis(get(fields, k), \'ref:VirtualFieldMixin\'), not typeis(fval(get(fields, k), self, k), \'ref:object\')), get(tree, k) == ite(not truthy(fval(get(fields, k), self, k)), None, ite(len(sensitive_mask) == 1, sensitive_mask * len(str(fval(get(fields, k), self, k))), sensitive_mask)))")', "plain": 'forall("k:key", "implies(has(tree, k) and not typeis(fval(get(fields, k), self, k), \'ref:Config\') and typeis(get(fields, k), \'ref:Field\') and not (typeis(get(fields, k), \'ref:Field\') and get(fields, k).sensitive and sensitive_mask is not None) and sensitive_mask is None, basic_rel(get(fields, k), self, fval(get(fields, k), self, k), get(tree, k)))")',
       }, 1: {
-          "locals": "typeis(comp_result, 'ref:list') and fresh(comp_result)",
+          "locals": "typeis(comp_result, 'ref:list') and fresh(comp_result) and len(comp_result) == I",
+          "C10+C02.items-that-are-not-configurations-keep-their-rendered-form": 'forall("j:int", "implies(0 <= j and j < I and not typeis(seq_item(field_value, j), \'ref:Config\'), seq_item(comp_result, j) == seq_item(value, j))")',
+          "C10.configuration-items-are-rendered-again-with-the-mask": 'forall("j:int", "implies(0 <= j and j < I and typeis(seq_item(field_value, j), \'ref:Config\'), tree_rel(seq_item(comp_result, j), seq_item(field_value, j), False, sensitive_mask))")',
           "fs": KF0,
           "frame": "heap_unchanged('Config._Config__keyfile', 'Config._Config__default_keyfile', 'KeyFile._KeyFile__key', 'KeyFile._KeyFile__refcount', tree, comp_result)",
       }})
